@@ -127,13 +127,35 @@ def run(pid: str, tier: str, seed: int, selftest=False, replay=None) -> int:
         used = lambda a: any((a + t) in body for t in (" ", ",", ")", "\n"))
         argdom = [[900001], [900002], [900003], [0, 1, 2, 3] if used("%n") else [1], [0, 1] if used("%p") else [0]]
         sources.append((f"gen:{seed}:{k}", text, argdom))
+    # exhaustive small scope (spec/SeqGen.tla): every sequence of <= 3 (thorough: 4) copies / compute ops / readers / barriers over three
+    # buffers, straight-line or as loops over loop-local buffers (the input class outside the known findings)
+    from gen_seq import render_ops, tlc_sequences
+    rg, seqs = tlc_sequences(pid, 8, 3 if tier == "quick" else 4, 1, False)
+    rep.add_tlc(rg)
+    n_small = 0
+    for toks in seqs:
+        if "F" in toks:
+            d, ok = 0, True
+            for t in toks:
+                if t == "F":
+                    d += 1
+                elif t == ")":
+                    d -= 1
+                elif d == 0:
+                    ok = False
+            if not ok:
+                continue
+        text, body, un, up = render_ops(toks, True)
+        sources.append(("small:" + " ".join(toks), text, [[900001], [900002], [900003], [0, 1, 2] if un else [1], [0]]))
+        n_small += 1
+    rep.extra["small_scope_programs"] = n_small
     c_bar, c_disp = [], []
     for name, text, argdom in sources:
         try:
             src = repo.parse(text)
             src.verify()
         except Exception as e:
-            if name.startswith("gen:"):
+            if name.startswith("gen:") or name.startswith("small:"):
                 raise MachineryError(f"generator produced invalid input {name}: {e}\n{text}")
             rep.skipped += 1
             continue
